@@ -206,7 +206,7 @@ func (m *ConnMon) Consumed(p *simnet.Pipe, t *simrt.Task, n int) {
 	if f := m.Req.FrameEndingAt(p.Consumed()); f != nil {
 		f.Reader = t
 		f.ReadAt = simrt.Steps()
-		t.Local.Set("req", f)
+		t.Local.Set("inherit.req", f)
 		if m.OnRequestRead != nil {
 			m.OnRequestRead(f)
 		}
@@ -254,10 +254,18 @@ func (m *ConnMon) onRep(f *FrameRec) {
 	}
 	req := m.inflight.Get(f.Tag)
 	if req == nil && f.Tag == refcodec.NoTag {
-		// reply to an undecodable frame: find the oldest undecodable request
-		for _, r := range m.Req.Frames {
-			if r.Reply == nil && !r.TagBusy && r.Class != refcodec.Exact && r.Class != refcodec.Trailing {
-				req = r
+		// reply to an undecodable frame that does not say which: the oldest
+		// unanswered frame of a known type with a bad body (a receiver may
+		// give up on the header of such a frame), else the oldest unanswered
+		// frame of an unknown type
+		for _, want := range []refcodec.Class{refcodec.Malformed, refcodec.UnknownType} {
+			for _, r := range m.Req.Frames {
+				if r.Reply == nil && !r.TagBusy && r.Class == want {
+					req = r
+					break
+				}
+			}
+			if req != nil {
 				break
 			}
 		}
